@@ -125,7 +125,7 @@ def h_hadd(csel: int, fc: int, spin: int, hint: Optional[int], nn: int, nbsel: i
     pre: 0 <= csel < len(CENTRES) and -3 <= fc <= 3 and -3 <= spin <= 3 and 0 <= nn <= 3 and 0 <= nbsel < len(NBRS) and 0 <= bt0 < len(BTS) and 0 <= cls_sel <= 1
     pre: hint is None or (0 <= hint and hint + nn <= 4)
     pre: SPLIT < 0 or csel * 2 + cls_sel == SPLIT
-    pre: not QUICK or (nbsel <= 1 and bt0 <= 2)
+    pre: not QUICK or (nbsel <= 1 and bt0 in (0, 1, 3))
     post: _
     """
     cls = [Molecule, Structure][pick(cls_sel, 2)]
